@@ -220,6 +220,11 @@ def sentinel_dtype(ctx, chk):
             chk.unknown("R03.2", "inversion core (%s): %d return paths" % (method, len(rets)))
             continue
         v = rets[0].value
+        if isinstance(v, App) and v.fn == "fresh" and v.kwd("dtype") not in (None, Const("float")):
+            chk.violation("R03.2", INV, "result-cast:" + method, "the thresholds are cast after the sentinels were written: %s" % show(v, 140),
+                          "float64 thresholds: nextafter(score, +-inf) is a float64 neighbour of the score and does not survive a cast to the scores' own (float32 / integer) dtype",
+                          ctx.where(INV))
+            continue
         sent = []
         while isinstance(v, App) and v.fn == "store":
             sent.append(v.args[2])
